@@ -86,6 +86,7 @@ struct central_model
     // schedule (true time in ns)
     std::int64_t    anchor_ns = 0;          // of event `abs_counter`
     std::uint64_t   abs_counter = 0;
+    std::uint64_t   counter_base = 0;       // value of the event counter at the first event of the connection (0 by the specification; the run may say otherwise)
     std::int64_t    last_heard_ns = 0;
     std::int64_t    created_ns = 0;
     bool            heard_once = false;
@@ -109,7 +110,7 @@ struct central_model
 
     unsigned csa1( std::uint64_t counter, const std::uint8_t* map ) const
     {
-        const unsigned unmapped = static_cast< unsigned >( ( static_cast< std::uint64_t >( hop ) * ( counter + 1 ) ) % 37 );
+        const unsigned unmapped = static_cast< unsigned >( ( static_cast< std::uint64_t >( hop ) * ( counter - counter_base + 1 ) ) % 37 );
         if ( map[ unmapped / 8 ] & ( 1 << ( unmapped % 8 ) ) ) return unmapped;
         unsigned used[ 37 ], n = 0;
         for ( unsigned c = 0; c != 37; ++c ) if ( map[ c / 8 ] & ( 1 << ( c % 8 ) ) ) used[ n++ ] = c;
@@ -164,6 +165,7 @@ private:
     std::int64_t        last_event_start_us_ = -1;
     std::set< unsigned > white_list_;
     bool                wl_conn_filter_ = false, wl_scan_filter_ = false;
+    std::uint64_t       event_counter_base_ = 0;
     // armed devices
     struct armed { bool active = false; sim::Op op; } scanner_, initiator_;
     // connection model
@@ -262,6 +264,7 @@ private:
     std::int64_t        timeout_before_update_us_ = 0, update_applied_local_us_ = -1;
     int                 directed_target_ = -1;          // device the application named last as target of directed advertising
     bool                raw_instant_pdu_sent_ = false;  // on this connection the central sent an instant based PDU with arbitrary content
+    bool                instant_passed_justified_ = false;  // an instant based PDU reached the peripheral at or after its instant (or one event before, for new timing)
 
     void activity();
     void advertising_activity();
@@ -288,6 +291,10 @@ inline void world::run( const sim::Plan& plan )
     p_drift_ = static_cast< double >( plan.knob( "p_drift_ppm", 0 ) ) * 1e-6;
     r_.setup_margin_us = static_cast< std::uint32_t >( plan.knob( "setup_margin_us", 300 ) );
     r_.refuse_disarm = plan.knob( "refuse_disarm", 0 ) != 0;
+    // both sides start their connection event counter at this value (seam BLUETOE_VERIF_INITIAL_EVENT_COUNTER): wrap around and sign change of the 16 bit counter within reach
+    event_counter_base_ = static_cast< std::uint64_t >( plan.knob( "event_counter_base", 0 ) ) & 0xffff;
+    g_initial_event_counter = static_cast< std::uint16_t >( event_counter_base_ );
+    if ( event_counter_base_ ) res_.fault( "event_counter_near_wrap" );
     if ( r_.refuse_disarm ) res_.fault( "radio_refuses_disarm" );
     r_.now_us = r_.t0_us = 0;
     long idx = -1;
@@ -606,7 +613,7 @@ inline void world::advertising_activity()
         app_procedure_started_local_us_ = -1; app_version_req_ = false; app_param_req_ = app_phy_req_ = 0;
         local_disconnect_requested_ = false;
         expected_close_reason_ = -1;
-        raw_instant_pdu_sent_ = false; tx_starved_since_update_ = false; remote_terminate_reasons_.clear(); map_update_sent_ = false; update_applied_local_us_ = -1;
+        raw_instant_pdu_sent_ = false; instant_passed_justified_ = false; tx_starved_since_update_ = false; remote_terminate_reasons_.clear(); map_update_sent_ = false; update_applied_local_us_ = -1;
         model_enc_ = model_enc_seen_ = false; enc_delivered_.clear(); enc_batch_.clear(); last_reported_enc_ = false; start_enc_req_seen_ = false; tx_session_legit_ = false; enc_started_this_event_ = false; rx_session_legit_ = prev_rx_enc_ = false; enc_legit_starts_ = enc_reported_ = 0; start_committed_ = false; prev_rx_enc_starts_ = r_.rx_enc_starts; changed_checked_ = rec_.changed_encrypted.size(); att_req_while_enc_.clear(); att_rsp_seen_ = false;
         reject_due_in_ = -1; legit_secret_writes_ = 0;
         if ( ll_.secret ) secret_snapshot_.assign( ll_.secret, ll_.secret + ll_.secret_size );
@@ -721,7 +728,7 @@ inline bytes world::make_connect_request( const sim::Op& op, const bytes& adv, b
     nc.md_burst = 1 + static_cast< unsigned >( ( ( op.arg( 11 ) % 4 ) + 4 ) % 4 );
     // first anchor relative to the end of the connect request (filled in by the caller with the true end time): encoded in anchor_ns as offset
     nc.anchor_ns = static_cast< std::int64_t >( 1250 + winoffset * 1250 ) * 1000 + static_cast< std::int64_t >( ( ( j % 1000 ) + 1000 ) % 1000 ) * static_cast< std::int64_t >( winsize ) * 1250;
-    nc.abs_counter = 0;
+    nc.abs_counter = nc.counter_base = event_counter_base_;
     return p;
 }
 
@@ -1044,8 +1051,13 @@ inline void world::connection_event_activity()
                         {
                             tx_starved_since_update_ = false;
                             const std::uint64_t instant = upd_instant_;
-                            const bool passed = upd_kind_ == 0 ? instant <= c_.abs_counter + 1 : instant <= c_.abs_counter;
+                            const bool passed = instant <= c_.abs_counter;
+                            // a connection update for the very next event: the peripheral may still apply it (the transmit window starts after this event) or give up
+                            // (the next event may already be scheduled) - applying is judged by the window rules, giving up must be Instant Passed
+                            const bool borderline = upd_kind_ == 0 && instant == c_.abs_counter + 1;
                             if ( passed && late_update_kind_ < 0 ) { late_update_kind_ = upd_kind_; late_update_deadline_ = c_.abs_counter + 8 + c_.latency; control_checks_excused_ = true; res_.probe( "instant_already_passed_at_reception" ); }
+                            if ( borderline ) { control_checks_excused_ = true; res_.probe( "instant_is_the_next_event_at_reception" ); }
+                            if ( passed || borderline ) instant_passed_justified_ = true;
                         }
                     }
                 }
@@ -1096,8 +1108,10 @@ inline void world::connection_event_activity()
             // ---- C27: the request in progress is answered within a few undisturbed events (a pending instant may hold answers back until the instant)
             if ( !expected_rsp_.empty() && current_acked_ && fault == 0 && !c_.upd.active && !control_checks_excused_ )
             {
-                ++quiet_events_;
                 const expect_rsp& e = expected_rsp_.front();
+                // (an event in which the peripheral sent data is progress on what the central asked for earlier: PDUs are handled in order,
+                // the answer is due when the peripheral has nothing else to say)
+                if ( e.none || !evts.last_transmitted_not_empty ) ++quiet_events_;
                 if ( e.none && quiet_events_ >= 4 ) { if ( !e.allowed.empty() ) lapsed_optional_.push_back( e ); expected_rsp_.pop_front(); release_next_control(); }
                 else if ( !e.none && quiet_events_ >= 10 && c_.connected && !local_disconnect_requested_ )
                 {
@@ -1545,6 +1559,10 @@ inline void world::after_callbacks( const char* )
                 late_update_kind_ = -1;
                 if ( !c_.upd.active && !instants_applied && c_.upd.tag == 0 )
                     violate( "C21", "instant-passed-without-instant", "instant-passed-without-instant", "connection closed with Instant Passed although no instant based procedure was started" );
+                // the instant of an honest update was still ahead when the PDU arrived: giving the connection up is not "from the instant on"
+                else if ( !instant_passed_justified_ && !raw_instant_pdu_sent_ && c_.upd.tag > 0 && c_.upd.legal && !c_.sync_excused )
+                    violate( "C21", "instant-passed-premature", "instant-passed-premature kind=" + std::to_string( c_.upd.kind ), "connection closed with Instant Passed although the update (kind %d, instant %llu) reached the peripheral before its instant (event %llu now)",
+                             c_.upd.kind, (unsigned long long)upd_instant_, (unsigned long long)c_.abs_counter );
             }
         }
     }
